@@ -608,15 +608,15 @@ impl CodeGen {
                             (_, _) => {
                                 self.emit_mov_r64_rm64(Reg::scr0(), self.tmp_param(tmp1));
                                 self.emit_add_rm64_i32(RegMem::Reg(Reg::scr0()), imm);
-                                self.emit_add_rm64_r64(self.tmp_param(tmp0), Reg::scr0());
+                                self.emit_mov_rm64_r64(self.tmp_param(tmp0), Reg::scr0());
                             }
                         }
                     } else if let Some(reg0) = Reg::tmp(tmp0) {
                         self.emit_mov_r64_i64(reg0, imm.into_i64());
-                        self.emit_mov_r64_rm64(reg0, self.tmp_param(tmp1));
+                        self.emit_add_r64_rm64(reg0, self.tmp_param(tmp1));
                     } else {
                         self.emit_mov_r64_i64(Reg::scr0(), imm.into_i64());
-                        self.emit_mov_r64_rm64(Reg::scr0(), self.tmp_param(tmp1));
+                        self.emit_add_r64_rm64(Reg::scr0(), self.tmp_param(tmp1));
                         self.emit_mov_rm64_r64(self.tmp_param(tmp0), Reg::scr0());
                     }
                 }
@@ -893,7 +893,7 @@ impl CodeGen {
                         self.emit_mul_r64_rm64(reg, RegMem::Reg(Reg::scr0()));
                     } else {
                         self.emit_load::<C>(idx0, Reg::scr0());
-                        self.emit_load::<C>(idx0, Reg::scr1());
+                        self.emit_load::<C>(idx1, Reg::scr1());
                         self.emit_mul_r64_rm64(Reg::scr0(), RegMem::Reg(Reg::scr1()));
                         self.emit_mov_rm64_r64(self.tmp_param(tmp), Reg::scr0());
                     }
@@ -920,7 +920,8 @@ impl CodeGen {
                             self.emit_mul_r64_rm64(reg0, self.tmp_param(tmp2));
                         } else {
                             self.emit_mov_r64_rm64(Reg::scr0(), self.tmp_param(tmp2));
-                            self.emit_add_rm64_r64(self.tmp_param(tmp0), Reg::scr0());
+                            self.emit_mul_r64_rm64(Reg::scr0(), self.tmp_param(tmp0));
+                            self.emit_mov_rm64_r64(self.tmp_param(tmp0), Reg::scr0());
                         }
                     } else {
                         match (Reg::tmp(tmp0), Reg::tmp(tmp1), Reg::tmp(tmp2)) {
